@@ -196,7 +196,49 @@ func (s *sys) key(baseDump, refDump []string) string {
 
 	_, _ = io.WriteString(h, "cwd="+s.ref.CurDir())
 
+	// OrefaFS keeps a second structure (the children maps) next to the path
+	// index that VerifDump prints; its defects can make the two disagree, so
+	// the listings are part of the state.
+	if s.fsName == "OrefaFS" {
+		_, _ = io.WriteString(h, listings(s.base, baseDump)+"\n--\n"+listings(s.ref, refDump))
+	}
+
 	return hex.EncodeToString(h.Sum(nil)[:16])
+}
+
+// listings renders ReadDir of every directory of a dump.
+func listings(v avfs.VFS, dump []string) string {
+	var b strings.Builder
+
+	for _, l := range dump {
+		if !strings.Contains(l, "/ d ") {
+			continue
+		}
+
+		p := pathOf(l)
+		if p == "" {
+			p = "/"
+		}
+
+		b.WriteString(p + ":")
+
+		if k, _ := fsx.Guard(func() {
+			es, err := v.ReadDir(p)
+			if err != nil {
+				b.WriteString("!" + fsx.ErrKind(err))
+			}
+
+			for _, e := range es {
+				b.WriteString(e.Name() + fsx.TypeChar(e.Type()) + ",")
+			}
+		}); k != "" {
+			b.WriteString("!" + k)
+		}
+
+		b.WriteString(";")
+	}
+
+	return b.String()
 }
 
 // pathOf is the path of a VerifDump line (directory lines end with "/").
